@@ -251,6 +251,8 @@ def show_effect(e) -> str:
         return f"rep({e[1]}: {show_effects(e[2])})"
     if e[0] == "if":
         return f"when({e[1]}: {show_effects(e[2])} | {show_effects(e[3])})"
+    if e[0] == "maybe":
+        return f"maybe({show_effects(e[1])})"
     return " ".join(str(x) for x in e)
 
 
@@ -264,6 +266,10 @@ def flat_effects(effects, inside=()):
             yield from flat_effects(e[3], inside + (("if", e[1], False),))
         else:
             yield e, inside
+
+
+class _EndWith(ast.stmt):
+    _fields = ()
 
 
 class Summariser:
@@ -475,6 +481,18 @@ class Summariser:
                     return self.block(rest, merged)
                 # some path ended: continue every live leaf separately
                 return Node((ct, cf), self._continue(tt, rest), self._continue(ft, rest))
+            if isinstance(st, ast.With):
+                # the body runs in place; entering the context is an effect (a lock taken, a file opened)
+                for item in st.items:
+                    state.effects.append(("with", self.canon(item.context_expr, state.env)))
+                    if item.optional_vars is not None:
+                        self.assign(item.optional_vars, Term(self.canon(item.context_expr, state.env) + ".__enter__()"), state)
+                return self.block(list(st.body) + [_EndWith()] + list(stmts[i + 1:]), state)
+            if isinstance(st, _EndWith):
+                state.effects.append(("endwith",))
+                continue
+            if isinstance(st, ast.Try) and self.depth == 0:
+                return self._try(st, stmts[i + 1:], state)
             if st.__class__.__name__ == "InlineBlock":
                 # body of an inlined helper (sa.inline): part of this statement list unless it leaves early
                 if any(x.__class__.__name__ == "LeaveBlock" for x in ast.walk(st)):
@@ -487,6 +505,56 @@ class Summariser:
             if state.term is not None:
                 return Leaf(state)
         return Leaf(state)
+
+    def _try(self, st, rest, state):
+        """try/except/else/finally at top level: the protected body either completes (then `else`, `finally`, the rest) or
+        an exception of one of the handled types interrupts it somewhere (the handler then starts from a state in which
+        everything the body assigns is unknown and a prefix of the body's effects may have happened)."""
+        self.try_id = getattr(self, "try_id", 0) + 1
+        k = self.try_id
+        final = list(st.finalbody)
+        ok_cont = list(st.orelse) + final + list(rest)
+        body_tree = self.block(list(st.body), state.fork())
+        body_tree = self._after_try(body_tree, ok_cont, final)
+        tree = body_tree
+        assigned = {n.id for x in st.body for n in ast.walk(x) if isinstance(n, ast.Name) and isinstance(n.ctx, ast.Store)}
+        probe = State(dict(state.env), [])
+        try:
+            partial = self.collapse(self.block(list(st.body), probe), loop_body=True).effects
+        except Unsupported:
+            partial = [("unknown",)]
+        for h in reversed(st.handlers):
+            hs = state.fork()
+            for v in assigned:
+                if v in hs.env:
+                    hs.env[v] = Term(f"{v}@try{k}", getattr(hs.env[v], "kind", None))
+            for key in [x for x in hs.env if x.startswith("@")]:
+                hs.env.pop(key)
+            if partial:
+                hs.effects.append(("maybe", tuple(partial)))
+            if h.name:
+                hs.env[h.name] = Term(f"exc{k}")
+            typ = self.canon(h.type, state.env) if h.type is not None else "BaseException"
+            htree = self.block(list(h.body) + final + list(rest), hs)
+            atom = f"raised({typ}) in try{k}"
+            tree = Node(([(atom, False)], [(atom, True)]), tree, htree)
+        return tree
+
+    def _after_try(self, tree, cont, final):
+        if isinstance(tree, Leaf):
+            if tree.state.term is None:
+                return self.block(cont, tree.state)
+            if final and tree.state.term in ("return", "raise"):
+                # finally runs before the pending return / raise
+                term, value = tree.state.term, tree.state.value
+                tree.state.term, tree.state.value = None, None
+                ft = self.block(list(final), tree.state)
+                if isinstance(ft, Leaf) and ft.state.term is None:
+                    ft.state.term, ft.state.value = term, value
+                    return ft
+                raise Unsupported("finally block that branches or exits")
+            return tree
+        return Node(tree.cond, self._after_try(tree.t, cont, final), self._after_try(tree.f, cont, final))
 
     def _resume(self, tree, rest):
         """Continue after an inlined helper: paths that left the helper (LeaveBlock) or fell off its end go on."""
@@ -704,7 +772,8 @@ class Summariser:
                 for k, t in enumerate(target.elts):
                     self.assign(t, Term(f"{base}[{k}]"), state)
         else:
-            key = self.canon(target, env)
+            # the target names a place, not a value: an attribute whose stored scalar is known is still that attribute
+            key = f"{self._c(target.value, env)}.{target.attr}" if isinstance(target, ast.Attribute) else self.canon(target, env)
             state.effects.append(("store", key, text(v)))
             if isinstance(target, ast.Attribute) and isinstance(v, (Poly, Term)):
                 env["@" + key] = v  # a later read of the attribute on this path sees the stored scalar
